@@ -298,6 +298,10 @@ class MinFlowDecomp(pathmodel.AbstractPathModelDAG): # Note that we inherit from
         
         # print("all_weights_list", sorted(all_weights_list))
 
+        if self.weight_type == int and any(weight != round(weight) for weight in all_weights_list):
+            # Non-integral values cannot be weights of an integer decomposition: the search over k decides
+            return False
+
         given_weights_optimization_options = copy.deepcopy(self.optimization_options)
         given_weights_optimization_options["optimize_with_greedy"] = False
         utils.logger.info(f"{__name__}: Solving with given weights = {all_weights_list}")
